@@ -16,6 +16,9 @@ from furax.tree import zeros_like
 
 
 class AbstractLinearOperator(lx.AbstractLinearOperator, ABC):  # type: ignore[misc]
+    # NumPy arrays defer to the reflected methods of the operators instead of broadcasting over them
+    __array_ufunc__ = None
+
     def __init_subclass__(cls, **keywords: Any) -> None:
         _monkey_patch_operator(cls)
 
